@@ -1,18 +1,32 @@
-/* Tailored scenario for the schedule found in NoteModel (C09_no_uaf): q -> n -> g.
-   Y: nsync_note_notify (q); nsync_note_free (q).   Z: nsync_note_free (n).   U: nsync_note_free (g).
-   Every note is freed by exactly one thread and no other thread ever names it in a call that overlaps the free
-   (Y's notify (q) has returned before Y's own free (q) starts). */
+/* note_f8 (F10 shape), with the call/ret announcements that
+   replay/note_replay.ml needs.  q -> n -> g.
+   Y: nsync_note_notify (q); nsync_note_free (q).   Z: nsync_note_free (n).   U: nsync_note_free (g). */
 #include "nsync.h"
 #include "vrt.h"
 #include <stdio.h>
-static nsync_note q, n, g;
-static void tY (void *a) { nsync_note_notify (q); nsync_note_free (q); }
-static void tZ (void *a) { nsync_note_free (n); }
-static void tU (void *a) { nsync_note_free (g); }
+static nsync_note note[3];   /* q = 0, n = 1, g = 2 (allocation order = the model's ids) */
+static void x_new (int i, int par) {
+	vrt_note ("call %d new %d none", vrt_self (), par);
+	note[i] = nsync_note_new (par < 0 ? NULL : note[par], nsync_time_no_deadline);
+	vrt_note ("ret %d %d", vrt_self (), note[i] != NULL);
+}
+static void x_notify (int i) {
+	vrt_note ("call %d notify %d", vrt_self (), i);
+	nsync_note_notify (note[i]);
+	vrt_note ("ret %d -", vrt_self ());
+}
+static void x_free (int i) {
+	vrt_note ("call %d free %d", vrt_self (), i);
+	nsync_note_free (note[i]);
+	vrt_note ("ret %d -", vrt_self ());
+}
+static void tY (void *a) { x_notify (0); x_free (0); }
+static void tZ (void *a) { x_free (1); }
+static void tU (void *a) { x_free (2); }
 int main (void) {
-	q = nsync_note_new (NULL, nsync_time_no_deadline);
-	n = nsync_note_new (q, nsync_time_no_deadline);
-	g = nsync_note_new (n, nsync_time_no_deadline);
+	x_new (0, -1);
+	x_new (1, 0);
+	x_new (2, 1);
 	vrt_thread ("Y", tY, NULL);
 	vrt_thread ("Z", tZ, NULL);
 	vrt_thread ("U", tU, NULL);
